@@ -192,7 +192,13 @@ impl World {
                             if a == 0x0d {
                                 self.fifo_ptr = *b;
                             }
-                            if a != 0x12 {
+                            if a == 0x01 {
+                                // LongRangeMode (bit 7) can only change while the chip is in sleep and the
+                                // write keeps it there (SX1276 datasheet, RegOpMode); otherwise it is kept
+                                let cur = self.regs[1];
+                                let v = if cur & 7 == 0 && *b & 7 == 0 { *b } else { (cur & 0x80) | (*b & 0x7f) };
+                                self.regs[1] = v;
+                            } else if a != 0x12 {
                                 self.regs[a] = *b;
                             }
                         }
